@@ -15,7 +15,7 @@ class C01(Check):
                          "host_projection", "host_projection_trace", "soft_implies_last_hard_ok", "dropped_only_if_older",
                          "dropped_changes_nothing", "hard_state_bookkeeping", "run_eq_runCore", "streak_characterisation_run",
                          "concurrent_pair_meets_spec", "concurrent_pair_step_meets_spec", "concurrent_nonok_order_irrelevant", "inv_determines",
-                         "overtaken_event_partial", "overtaken_event_counterexample", "overtaken_meets_spec_partial", "eventRead_own"]
+                         "overtaken_event", "overtaken_meets_spec"]
     technique = "Lean 4 proof (invariant by induction + refinement to the streak counter and to the reader's hard-state bookkeeping) over a hand-written model; correspondence by exhaustive + random differential execution of Checkable::ProcessCheckResult (directly, through ApiActions::ProcessCheckResult and through ExternalCommandProcessor; on objects with and without authority; two calls at once on two threads)"
     level_text = ("Machine-checked theorems (Lean 4 kernel) that for every configuration with max_check_attempts >= 1, every start state "
                   "(never-checked, any state of the shape the machine produces - then held to the whole property at once -, any other state a state "
@@ -26,9 +26,9 @@ class C01(Check):
                   "strictly older (by execution START) and without effect; host traces depend on the results only through Up/Down (trace-level theorem); after every "
                   "history two further results processed one after the other satisfy the clause for CONCURRENT pairs (final state/type/attempt = streak after both, a "
                   "hard event per result exactly where the rule demands it, in one of the two orders), and for two non-OK results the order is irrelevant. "
-                  "The emission site is modelled as written (hard branch from locals, soft branch re-reading the state type): a result whose report is overtaken by "
-                  "the next result satisfies the specification under the exact hypothesis of overtaken_event_partial; overtaken_event_counterexample is F-C01a "
-                  "(lost soft event / spurious soft event on the unchanged code, known finding). The model is tied to "
+                  "A result whose report is overtaken by the next result (held by a subscriber of its OnNewCheckResult signal) reports the event of its own place "
+                  "in the sequence and both lines satisfy the whole specification (overtaken_event, overtaken_meets_spec; F-C01a, repaired by b75b8e7, "
+                  "stays covered by the Y operation and its own clause name). The model is tied to "
                   "the code by running the real ProcessCheckResult on all result sequences of length 5 (7 thorough) x kind x max 1..4 x volatile x "
                   "flapping from the pending state, all sequences of length 3 (4) from every start state (state x type x attempt 1..3 x last/previous "
                   "hard state), all sequences of length 4 (5) on objects whose parent (own host / Dependency, hard-only or soft-counting) goes down "
@@ -168,33 +168,6 @@ class C01(Check):
                 if stats.get(k, 0) == 0:
                     raise core.TieBroken("driver:c01:coverage", f"generator never reached {k}: {stats}")
         return res
-
-    def matches_known(self, entry, finding):
-        """F-C01a only: the event of a result whose state-change report was overtaken by the next result (Y operation), both
-        accepted, where the two results left the object in DIFFERENT state types and the first one's report is exactly what
-        the late re-read of the state type explains: no event although it left the object soft (lost soft event), or a soft
-        event although it left the object hard (spurious).  A missing/extra HARD event, any other clause, any other line: reported."""
-        if entry.get("classifier") != "c01_overtaken_result_rereads_state_type" or finding.kind != "spec":
-            return False
-        if not finding.what.endswith(":state_change_event_of_overtaken_result"):
-            return False
-        mins = (finding.detail or {}).get("min_driver") or []
-        if len(mins) != 1:
-            return False
-        try:
-            ln = int(core.parse_kv(mins[0])["line"])
-            line = finding.case_lines[ln - 1]
-            if not line.startswith("Y ") or " | " not in line:
-                return False
-            a, rest = line.split(" | ", 1)[1].split(" ;; ", 1)
-            a = [int(x) for x in a.split()]
-            b = [int(x) for x in rest.split(" ; ")[0].split()]
-        except (KeyError, IndexError, ValueError):
-            return False
-        if len(a) != 13 or len(b) != 13 or a[0] != 1 or b[0] != 1:
-            return False
-        ty_a, ev_a, ty_b = a[2], a[5], b[2]
-        return ty_a != ty_b and ((ty_a == 0 and ev_a == 0) or (ty_a == 1 and ev_a == 1))
 
     def replay(self, path, harness, driver):
         data = json.load(open(path))
